@@ -21,7 +21,7 @@ ASSUMPTIONS = [
     'selftest/conformance.py, not here)',
     'exit codes asserted only for sys.exit(n) with 0 <= n <= 255',
 ]
-RULE = ('case = (start flavour fork|forkserver, child program: ticks/sleeps then return | raise | sys.exit(n) | fatal '
+RULE = ('case = (start flavour fork|forkserver|spawn, child program: ticks/sleeps then return | raise | sys.exit(n) | fatal '
         'signal | os._exit(n), 1-2 parent programs of exitcode/is_alive/join(t)/sleep/terminate/active_children/'
         'start-again/foreign-start ops, EINTR rate); distinct = distinct (workload hash, schedule fingerprint); '
         'non-trivial = a parent observation was made while the child was still alive AND one after it ended')
@@ -97,7 +97,7 @@ def generate(rng, tier, prop='C19'):
             else:
                 ops.append(['start_again'])
         parents.append(ops)
-    return {'flavour': rng.choice(['fork', 'fork', 'forkserver']), 'child': body + [end], 'parents': parents,
+    return {'flavour': rng.choice(['fork', 'fork', 'forkserver', 'spawn']), 'child': body + [end], 'parents': parents,
             'foreign_start': rng.random() < 0.15, 'eintr': rng.choice([0.0, 0.0, 0.1]),
             'policy': rng.choice(POLICIES)}
 
@@ -151,7 +151,11 @@ def execute(case, seed, choices=None):
     poolsim.install_pool()
     poolsim.setup_kernel(k)
     import billiard.process as BP
-    ctx = poolsim.PoolContext() if case['flavour'] == 'fork' else poolsim.FSContext()
+    if case['flavour'] == 'spawn':
+        poolsim.install_spawn()
+        ctx = poolsim.spawn_context()
+    else:
+        ctx = poolsim.PoolContext() if case['flavour'] == 'fork' else poolsim.FSContext()
     viol = []
     seen = set()
     obs = []            # (kind, begin step, end step, tb, te, result, arg)
@@ -261,7 +265,7 @@ def execute(case, seed, choices=None):
             if kind == 'exitcode':
                 if res is None:
                     saw_alive = True
-                    if dead_at_b and case['flavour'] == 'fork':
+                    if dead_at_b and case['flavour'] != 'forkserver':
                         bad('C19.a', 'exitcode-none-after-exit', 'child died at step %d, exitcode read at %d..%d gave None'
                             % (ds, b, e))
                 else:
@@ -272,7 +276,7 @@ def execute(case, seed, choices=None):
             elif kind == 'is_alive':
                 if res:
                     saw_alive = True
-                    if dead_at_b and case['flavour'] == 'fork':
+                    if dead_at_b and case['flavour'] != 'forkserver':
                         bad('C19.a', 'alive-after-exit', 'is_alive() True at steps %d..%d, child died at %d' % (b, e, ds))
                 else:
                     saw_dead = True
@@ -296,7 +300,7 @@ def execute(case, seed, choices=None):
                 if res is not None:
                     check_code(bad, res, exp, case)
             elif kind == 'active':
-                if res and ds is not None and ds <= b and case['flavour'] == 'fork':
+                if res and ds is not None and ds <= b and case['flavour'] != 'forkserver':
                     bad('C19.c', 'dead-child-still-active', 'active_children() lists a child that exited at step %d' % ds)
             elif kind == 'final':
                 code, alive, active = res
